@@ -176,12 +176,17 @@ func ReaderDiscard(k int) Driver {
 					continue
 				}
 				b := make([]byte, k)
-				// k is 0 or 1, so ReadFull itself never produces ErrUnexpectedEOF: io.EOF means
-				// the message ended (empty message), anything else is the reader's error.
-				n, err := io.ReadFull(rd, b)
-				if err != nil && err != io.EOF {
-					res.Err = err
-					return
+				n := 0
+				for n < k {
+					m, err := rd.Read(b[n:])
+					n += m
+					if err == io.EOF {
+						break // the message ended before k bytes
+					}
+					if err != nil {
+						res.Err = err
+						return
+					}
 				}
 				if err := rd.Discard(); err != nil {
 					res.Err = err
@@ -194,6 +199,19 @@ func ReaderDiscard(k int) Driver {
 			return
 		},
 	}
+}
+
+// ReaderDiscardUTF8 is ReaderDiscard with UTF-8 checking switched on: a partial read may
+// stop inside a multi-byte sequence before the rest of the message is discarded.
+func ReaderDiscardUTF8(k int) Driver {
+	d := ReaderDiscard(k)
+	inner := d.Run
+	d.Name = fmt.Sprintf("Reader/discard-after-%d/utf8", k)
+	d.Run = func(src io.Reader, side streams.Side, cfg Cfg, res *Result) {
+		cfg.CheckUTF8 = true
+		inner(src, side, cfg, res)
+	}
+	return d
 }
 
 // NextReaderLoop: wsutil.NextReader per message; interleaved control frames are dropped
@@ -424,7 +442,7 @@ func ParseFrames(b []byte) (out []refmodel.Frame, rest []byte) {
 func All() []Driver {
 	return []Driver{
 		ReaderLoop(1), ReaderLoop(2), ReaderLoop(7), ReaderLoop(512),
-		ReaderDiscard(0), ReaderDiscard(1),
+		ReaderDiscard(0), ReaderDiscard(1), ReaderDiscardUTF8(1), ReaderDiscardUTF8(2),
 		NextReaderLoop(), ReadMessageLoop(),
 		ReadDataLoop("Generic"), ReadDataLoop("Data"), ReadDataLoop("Text"), ReadDataLoop("Binary"),
 	}
